@@ -56,6 +56,7 @@ type Conn struct {
 	Delay    func(point string) // optional delay injection ("rx.before", "rx.after", "tx.before", "tx.after")
 	WriteErr func(k int) error
 	OnTake   func(k int) // called inside ReadFrom call #k after it has taken a datagram, before it returns it
+	CloseErr error       // what Close returns (the conn is closed all the same, like a socket whose owner closed it first)
 }
 
 func New(buffer int) *Conn {
@@ -218,7 +219,7 @@ func (c *Conn) Close() error {
 		}
 		c.mu.Unlock()
 	})
-	return nil
+	return c.CloseErr
 }
 
 func (c *Conn) Closed() bool {
